@@ -199,7 +199,7 @@ PROPS = {
         check_module="C01Check",
         theorems={t: [] for t in ["C01_deterministic", "C01_fuel_monotone", "C01_eval_fuel_monotone",
                                   "C01_compile_correct_f1", "C01_compile_correct_f2", "C01_compile_correct_f3", "C01_compile_correct_f4", "C01_compile_correct_f5",
-                                  "C01_compile_correct_f6r", "C01_compile_correct_f6_partial", "C01_fragments_well_scoped"]},
+                                  "C01_compile_correct_f6r", "C01_compile_correct_f6_partial", "C01_compile_correct_f8", "C01_fragments_well_scoped"]},
         n_quick=240, n_thorough=3000,
         gen_timeout=3000,
         gates=["ok", "globals>16", "shadowing_loop_variable", "return_in_loop", "nested_loops", "call.fn_argument", "dyncall.variable",
@@ -247,7 +247,7 @@ PROPS = {
             "no known classes: the former labels 10-14 (R-1..R-5) were repaired in the crate and are ordinary "
             "violations (code 2) now; their witnesses run first in every check and must agree with RefSem",
             "the simulation theorem compile_correct against the compiler and VM models (Compiler.compile, then Vm.run "
-            "on its output, against RefSem.eval_program) is proved for seven nested fragments only (C01_compile_correct_f1: main "
+            "on its output, against RefSem.eval_program) is proved for eight nested fragments only (C01_compile_correct_f1: main "
             "alone, global assignments of integer / nil expressions over + - * < <= == != and or xor not and reads "
             "of globals, VarNotFound included; C01_compile_correct_f2: the same plus IfTrue / IfFalse / IfElse with "
             "one statement per branch, nested; C01_compile_correct_f3: the same plus While loops at the top level of "
@@ -259,12 +259,17 @@ PROPS = {
             "counter; C01_compile_correct_f6_partial: the same plus the loop variable (Repeat i n body: a scope per round with "
             "the variable in the slot above the hidden locals, initialised from the counter, popped at the end of the round; "
             "RefSem allocates a fresh cell per round, the proof relates visible locals to cells by a map); partial with respect "
-            "to the planned fragment: a Repeat body that declares locals of its own, and ForEach, are not covered; "
+            "to the planned fragment: a Repeat body that declares locals of its own, and ForEach, are not covered by it; "
+            "C01_compile_correct_f8: the same plus declarations in scopes - a SetVar of a new name directly in main, directly as "
+            "the body of a Repeat, or inside Composite cards in such a position, nested at will; the locals a Repeat body "
+            "declares live above the hidden locals and the loop variable and are popped with it at the end of every round "
+            "(the while-language with globals, locals of main, nested Repeat loops with loop variables and body-local variables); "
             "hypotheses: compile returns Ok "
             "(which since ce07816 implies that no two global names share their FNV handle; globals are observed "
             "under the names that do not collide with a name of the program), expression depth + 1 < 256, fewer than 2^32 variable "
-            "ids, bytecode shorter than 2^31 bytes, for f1 / f2 budget >= instructions of main + 2); for everything "
-            "else (reals, a Repeat body that declares locals, ForEach, calls, tables, closures, natives) its statement "
+            "ids, bytecode shorter than 2^31 bytes, for f1 / f2 budget >= instructions of main + 2; for f8 possible declarations + "
+            "temporaries of the deepest path + 1 < 256); for everything "
+            "else (reals, ForEach, calls, tables, closures, natives) its statement "
             "at the top of Properties/C01.v is carried by the differential check only",
         ],
     ),
